@@ -594,7 +594,14 @@ impl Shape {
                 // Only a symbol whose shape is still unknown learns from this.
                 // A hole can outlive the function argument it stood for and
                 // must not overwrite an unrelated binding of the same name.
-                if let Some(Shape::Hole(_)) = symbol_table.get(&sym.val) {
+                // Holes are named after the symbol they stand for so two
+                // arguments of the same name in different functions look
+                // alike. The position tells them apart.
+                let same_hole = match symbol_table.get(&sym.val) {
+                    Some(Shape::Hole(existing)) => existing.pos == sym.pos,
+                    _ => false,
+                };
+                if same_hole {
                     symbol_table.insert(sym.val.clone(), other.clone().with_pos(sym.pos.clone()));
                 }
                 other.clone()
